@@ -69,7 +69,7 @@ def shrink(exe_r, exe_m, case, same_class):
 
 
 def run(ctx):
-    n = 5000 if ctx.tier == "quick" else 400000
+    n = 8000 if ctx.tier == "quick" else 1000000
     ctx.assumptions += [
         "model: one stream, both ends driven by the real runtime; the host is a FIFO between the ends whose every choice (answer of stream.read/write, resolving event, delivery time, cancel answer) is an input; the host moves exactly the items it reports (a host that reports more than it moved is outside the quantifier)",
         "WaitableOperation (waitable.rs) enters by its contract only: poll = start / take delivered code, cancel = start_cancelled / delivered code / cancel intrinsic, Drop = cancel (its registration protocol is C18)",
